@@ -28,7 +28,7 @@ from symx.harness import HarnessDef
 from props.hydrokit import ScipyStubs
 
 EXPLANATION = __doc__
-BOUNDS = {"steps": "<= 1 integrator step per direction (quick), <= 2 (thorough)", "fields": "1 and 2",
+BOUNDS = {"steps": "<= 1 integrator step per direction (quick); thorough adds 2 steps for the 2-field re-minimising case", "fields": "1 and 2",
           "Tc stepping loop": "unrolled 3", "paths": "<= 1500"}
 OUTSIDE = ["accuracy of RK45 / BFGS; 'interpolated values agree with the exact minimum to the tracing "
            "tolerance'; staying on the same branch when the minimiser could hop phases (numerical)",
@@ -292,7 +292,8 @@ def h_tc(h):
 HARNESSES = [
     HarnessDef("tracePhase-bookkeeping", h_trace,
                [dict(nf=2, paranoid=True, maxsteps=1), dict(nf=1, paranoid=False, maxsteps=1), dict(nf=1, paranoid=True, maxsteps=1)],
-               [dict(nf=nf, paranoid=p, maxsteps=m) for nf in (1, 2) for p in (True, False) for m in (1, 2)], max_paths=30000, timeout_s=30,
+               [dict(nf=nf, paranoid=p, maxsteps=1) for nf in (1, 2) for p in (True, False)] +
+               [dict(nf=2, paranoid=True, maxsteps=2)], max_paths=30000, timeout_s=30,
                encodes=[FE.FreeEnergy.tracePhase], random_validation=0, concrete_alarms=False, feas_timeout_ms=300),
     HarnessDef("critical-temperature", h_tc, [dict()], max_paths=1500, timeout_s=30,
                encodes=[TH.Thermodynamics.findCriticalTemperature, TH.Thermodynamics._getCoexistenceRange],
